@@ -84,6 +84,9 @@ class NCtx:
     def RM(self):
         return ('RoundingMode', )
 
+    def RegLan(self):
+        return ('RegLan', )
+
     def BV(self, w):
         return ('BV', w)
 
@@ -101,7 +104,7 @@ class NCtx:
 
     def sort_node(self, s):
         k = s[0]
-        if k in ('Bool', 'Int', 'Real', 'String', 'RoundingMode'):
+        if k in ('Bool', 'Int', 'Real', 'String', 'RoundingMode', 'RegLan'):
             return k
         if k == 'BV':
             return ['_', 'BitVec', str(s[1])]
